@@ -85,6 +85,10 @@ func structPkgOK(p *types.Package) bool {
 	return strings.Contains(strings.SplitN(p.Path(), "/", 2)[0], ".")
 }
 
+// calleePkgOK: functions of the repository and, under full_imports, of the third-party modules it
+// requires (dns.CountLabel, dns.NextLabel …) are translated from their source like any other callee.
+func calleePkgOK(p *types.Package) bool { return structPkgOK(p) }
+
 // inRepo reports whether p is a package of the repository being translated.
 func inRepo(p *types.Package) bool {
 	if p == nil {
@@ -1038,7 +1042,7 @@ func (t *ftr) repoCallee(e *ast.CallExpr) bool {
 		return false
 	}
 	fn, ok := t.pi.info.Uses[id].(*types.Func)
-	return ok && fn.Pkg() != nil && (fn.Pkg() == t.pi.pkg || inRepo(fn.Pkg()))
+	return ok && fn.Pkg() != nil && (fn.Pkg() == t.pi.pkg || calleePkgOK(fn.Pkg()))
 }
 
 func (t *ftr) conv(target types.Type, arg ast.Expr, at ast.Node) string {
@@ -1211,7 +1215,7 @@ func (t *ftr) call(e *ast.CallExpr) string {
 			}
 			t.bad(e, "time.Time method %s", f.Sel.Name)
 		}
-		if n := namedOf(t.typeOf(f.X)); n != nil && inRepo(n.Obj().Pkg()) {
+		if n := namedOf(t.typeOf(f.X)); n != nil && calleePkgOK(n.Obj().Pkg()) {
 			if _, ok := t.pi.info.Uses[f.Sel].(*types.Func); ok {
 				d := dirOfPkg(n.Obj().Pkg())
 				pi := t.pi
@@ -1223,7 +1227,7 @@ func (t *ftr) call(e *ast.CallExpr) string {
 		}
 		// function of another package of the repository: pkg.Func(args)
 		if id, ok := f.X.(*ast.Ident); ok {
-			if pn, ok := t.pi.info.Uses[id].(*types.PkgName); ok && inRepo(pn.Imported()) {
+			if pn, ok := t.pi.info.Uses[id].(*types.PkgName); ok && calleePkgOK(pn.Imported()) {
 				if _, ok := t.pi.info.Uses[f.Sel].(*types.Func); ok {
 					d := dirOfPkg(pn.Imported())
 					return t.apply(loadPkg(d), d, f.Sel.Name, nil, e)
@@ -1856,7 +1860,12 @@ func (t *ftr) emitLoop(at ast.Node, lead []envVar, leadArgs []string, budget str
 	}
 	// inside the fix: scope = lead + (r_i) + state; the outer scope is not visible
 	savedEnv := t.env
-	t.env = append([]envVar{}, lead...)
+	t.env = nil
+	for _, l := range lead {
+		if l.name != "fuel" { // the budget is passed along but is not a program variable
+			t.env = append(t.env, l)
+		}
+	}
 	if rng {
 		t.env = append(t.env, envVar{c.ri, "Z"})
 	}
@@ -2181,7 +2190,7 @@ func needsFuel(pi *pkgInfo, dir, fn string) bool {
 					return true
 				}
 				callee, ok := pi.info.Uses[id].(*types.Func)
-				if !ok || callee.Pkg() == nil || !(callee.Pkg() == pi.pkg || inRepo(callee.Pkg())) {
+				if !ok || callee.Pkg() == nil || !(callee.Pkg() == pi.pkg || calleePkgOK(callee.Pkg())) {
 					return true
 				}
 				cd := dir
@@ -2559,7 +2568,7 @@ func loopNeedsFuel(pi *pkgInfo, dir string, loop ast.Stmt) bool {
 				return true
 			}
 			callee, ok := pi.info.Uses[id].(*types.Func)
-			if !ok || callee.Pkg() == nil || !(callee.Pkg() == pi.pkg || inRepo(callee.Pkg())) {
+			if !ok || callee.Pkg() == nil || !(callee.Pkg() == pi.pkg || calleePkgOK(callee.Pkg())) {
 				return true
 			}
 			cd, cpi := dir, pi
